@@ -103,6 +103,53 @@ fn done_obj(r: Result<ObjId, AutomergeError>) -> J {
     }
 }
 
+/// A nested value in the tagged image form {"t": "map"|"seq"|"text"|"scalar", ...} -> hydrate::Value (C27)
+pub fn hydrate_from(j: &J, enc_: automerge::TextEncoding) -> automerge::hydrate::Value {
+    use automerge::hydrate::Value as HV;
+    match j["t"].as_str().unwrap_or("") {
+        "map" => {
+            let mut m: std::collections::HashMap<String, HV> = Default::default();
+            for e in j["ents"].as_array().cloned().unwrap_or_default() {
+                m.insert(e["k"].as_str().unwrap_or("").to_string(), hydrate_from(&e["v"], enc_));
+            }
+            HV::Map(automerge::hydrate::Map::from(m))
+        }
+        "seq" => HV::from(j["items"].as_array().cloned().unwrap_or_default().iter().map(|x| hydrate_from(x, enc_)).collect::<Vec<_>>()),
+        "text" => {
+            let toks: Vec<String> = j["toks"].as_array().map(|a| a.iter().filter_map(|t| t.as_str().map(String::from)).collect()).unwrap_or_default();
+            HV::text(enc_, &enc::tokens_str(&toks))
+        }
+        _ => HV::Scalar(scalar_from(&j["v"])),
+    }
+}
+
+pub fn rand_container(rng: &mut Rng, prof: &Profile) -> J {
+    loop {
+        let v = rand_value(rng, prof, 0);
+        if v["t"] != "scalar" {
+            return v;
+        }
+    }
+}
+
+/// random nested value (depth <= 2, width <= 2) in the tagged image form
+pub fn rand_value(rng: &mut Rng, prof: &Profile, depth: usize) -> J {
+    let c = if depth >= 2 { 3 + rng.below(2) } else { rng.below(5) };
+    match c {
+        0 => {
+            let n = rng.below(3);
+            let ents: Vec<J> = (0..n).map(|k| json!({"k": KEYS[k], "v": rand_value(rng, prof, depth + 1)})).collect();
+            json!({"t":"map","ents":ents})
+        }
+        1 => {
+            let n = rng.below(3);
+            json!({"t":"seq","items": (0..n).map(|_| rand_value(rng, prof, depth + 1)).collect::<Vec<_>>()})
+        }
+        2 => json!({"t":"text","toks": if rng.chance(1, 4) { vec![] } else { rand_toks(rng, prof, 3) }}),
+        _ => json!({"t":"scalar","v": rand_scalar(rng, prof)}),
+    }
+}
+
 /// Execute one call description.  Returns {"res","ret"}.
 pub fn exec<T: Transactable + ReadDoc>(t: &mut T, call: &J) -> J {
     let f = call["fn"].as_str().unwrap_or("");
@@ -167,6 +214,35 @@ pub fn exec<T: Transactable + ReadDoc>(t: &mut T, call: &J) -> J {
             call["end"].as_u64().unwrap_or(0) as usize,
             expand_from(call["expand"].as_str().unwrap_or("none")),
         )),
+        "update_text" => {
+            let toks: Vec<String> = call["toks"].as_array().map(|a| a.iter().filter_map(|t| t.as_str().map(String::from)).collect()).unwrap_or_default();
+            done(t.update_text(&obj, enc::tokens_str(&toks)))
+        }
+        "update_object" => {
+            let v = hydrate_from(&call["value"], t.text_encoding());
+            match t.update_object(&obj, &v) {
+                Ok(()) => json!({"res":"ok","ret":[-1,-1]}),
+                Err(e) => {
+                    let d = format!("{:?}", e);
+                    let end = d.find(|c: char| !(c.is_ascii_alphanumeric() || c == '_')).unwrap_or(d.len());
+                    json!({"res": format!("err:{}", &d[..end]), "ret":[-1,-1]})
+                }
+            }
+        }
+        "batch_create" => {
+            let v = hydrate_from(&call["value"], t.text_encoding());
+            done_obj(t.batch_create_object(&obj, prop_of(call), &v, call["insert"].as_bool().unwrap_or(false)))
+        }
+        "init_root" => {
+            match hydrate_from(&call["value"], t.text_encoding()) {
+                automerge::hydrate::Value::Map(m) => done(t.init_root_from_hydrate(&m)),
+                _ => json!({"res":"harness:not_a_map","ret":[-1,-1]}),
+            }
+        }
+        "splice_values" => {
+            let vals: Vec<automerge::hydrate::Value> = call["values"].as_array().map(|a| a.iter().map(|x| hydrate_from(x, t.text_encoding())).collect()).unwrap_or_default();
+            done(t.splice(&obj, call["idx"].as_u64().unwrap_or(0) as usize, call["del"].as_i64().unwrap_or(0) as isize, vals))
+        }
         _ => json!({"res":"harness:unknown_fn","ret":[-1,-1]}),
     }
 }
@@ -194,6 +270,8 @@ pub struct Profile {
     pub combining: bool,
     /// half of the scalar values are strings (C40)
     pub stringy: bool,
+    /// programs also use the reconciliation / bulk construction calls (C27)
+    pub bulk: bool,
     /// text programs also overwrite single characters with put(text, i, "c") (conflicting values on
     /// one text element) and embed objects (C24)
     pub text_puts: bool,
@@ -216,6 +294,7 @@ impl Profile {
             counter_heavy: false,
             combining: false,
             stringy: false,
+            bulk: false,
             text_puts: false,
         }
     }
@@ -318,6 +397,23 @@ pub fn gen(rng: &mut Rng, view: &J, prof: &Profile) -> J {
         };
     }
     let can_make = prof.nested && nobjs < prof.max_objs;
+    if prof.bulk && rng.chance(1, 2) {
+        let len = o["len"].as_u64().unwrap_or(0) as usize;
+        return match ty {
+            "text" => json!({"fn":"update_text","obj":id,"toks": if rng.chance(1, 6) { vec![] } else { rand_toks(rng, prof, 5) }}),
+            "list" => match rng.below(4) {
+                0 => json!({"fn":"update_object","obj":id,"value":{"t":"seq","items": (0..rng.below(4)).map(|_| rand_value(rng, prof, 1)).collect::<Vec<_>>()}}),
+                1 if len < prof.max_len => json!({"fn":"batch_create","obj":id,"idx":rng.below(len + 1),"insert":true,"value":rand_container(rng, prof)}),
+                2 if len > 0 => json!({"fn":"batch_create","obj":id,"idx":rng.below(len),"insert":false,"value":rand_container(rng, prof)}),
+                _ => json!({"fn":"splice_values","obj":id,"idx":rng.below(len + 1),"del":0,"values":(0..1 + rng.below(2)).map(|_| rand_value(rng, prof, 1)).collect::<Vec<_>>()}),
+            },
+            _ => match rng.below(4) {
+                3 if id[0].as_i64() == Some(0) => json!({"fn":"init_root","obj":id,"value":{"t":"map","ents": (0..1 + rng.below(2)).map(|k| json!({"k": KEYS[k], "v": rand_value(rng, prof, 1)})).collect::<Vec<_>>()}}),
+                0 => json!({"fn":"update_object","obj":id,"value":{"t":"map","ents": (0..rng.below(3)).map(|k| json!({"k": KEYS[k], "v": rand_value(rng, prof, 1)})).collect::<Vec<_>>()}}),
+                _ => json!({"fn":"batch_create","obj":id,"key":KEYS[rng.below(prof.nkeys.clamp(1, 3))],"insert":false,"value":rand_container(rng, prof)}),
+            },
+        };
+    }
     match ty {
         "map" | "table" => {
             let key = KEYS[rng.below(prof.nkeys.clamp(1, 3))];
